@@ -417,11 +417,13 @@ impl Globals {
                                     };
                                     if let syn::Type::Reference(r) = &*pt.ty {
                                         if r.mutability.is_some() {
-                                            if !is_model_type(&r.elem) || name == "_" {
+                                            // cursors of the semantic models and plain integers are threaded through
+                                            let int_ref = matches!(conv_ty(path, &r.elem, self_ty.as_deref(), &type_names), Ok(Ty::Int(_)));
+                                            if !(is_model_type(&r.elem) || int_ref) || name == "_" {
                                                 return err_at(
                                                     path,
                                                     pt.ty.span(),
-                                                    "`&mut` parameter (other than self or a semantic-model cursor) is not supported",
+                                                    "`&mut` parameter (other than self, a semantic-model cursor or an unsigned integer) is not supported",
                                                 );
                                             }
                                             mut_params.push(name.clone());
@@ -526,12 +528,26 @@ fn register_builtins(g: &mut Globals) {
     add("WriteCursor", "write_all", SelfMode::Mut, vec![("buf", bytes.clone())], iores(Ty::Unit));
     add("WriteCursor", "write", SelfMode::Mut, vec![("buf", bytes.clone())], iores(Ty::Int(64)));
     add("Octets", "get_u8", SelfMode::Mut, vec![], res(Ty::Int(8)));
+
     add("Octets", "get_u16", SelfMode::Mut, vec![], res(Ty::Int(16)));
     add("Octets", "get_u32", SelfMode::Mut, vec![], res(Ty::Int(32)));
     add("Octets", "get_u64", SelfMode::Mut, vec![], res(Ty::Int(64)));
     add("Octets", "get_varint", SelfMode::Mut, vec![], res(Ty::Int(64)));
     add("Octets", "get_bytes", SelfMode::Mut, vec![("len", Ty::Int(64))], res(Ty::Named("Octets".into())));
     add("Octets", "get_bytes_with_varint_length", SelfMode::Mut, vec![], res(Ty::Named("Octets".into())));
+    // free function `octets::varint_len`
+    g.fns.entry((None, "varint_len".to_string())).or_default().push(FnInfo {
+        group: String::new(),
+        ns: BUILTIN_NS.to_string(),
+        self_ty: None,
+        name: "varint_len".to_string(),
+        self_mode: SelfMode::None,
+        params: vec![("v".to_string(), Ty::Int(64))],
+        mut_params: vec![],
+        const_params: vec![],
+        ret: Ty::usize(),
+        order: 0,
+    });
 }
 
 fn path_segments(p: &syn::Path) -> Vec<String> {
@@ -607,7 +623,7 @@ pub fn conv_ty(file: &str, t: &syn::Type, self_ty: Option<&str>, type_names: &[S
             }
             match (name.as_str(), args.len()) {
                 ("Box", 1) => return conv_ty(file, args[0], self_ty, type_names),
-                ("Vec", 1) => return Ok(Ty::List(Box::new(conv_ty(file, args[0], self_ty, type_names)?), ListKind::Vec)),
+                ("Vec", 1) | ("VecDeque", 1) => return Ok(Ty::List(Box::new(conv_ty(file, args[0], self_ty, type_names)?), ListKind::Vec)),
                 ("Option", 1) => return Ok(Ty::Opt(Box::new(conv_ty(file, args[0], self_ty, type_names)?))),
                 ("Result", 2) => {
                     return Ok(Ty::Res(
